@@ -102,6 +102,12 @@ package segmenter
 //@   requires cr.pictoSequence <= 2
 //@   requires [data-extPictNotExtendNorZWJ] implies(cr.isExtentedPic, cr.grapheme != ucd.GraphemeBreakExtend && cr.grapheme != ucd.GraphemeBreakZWJ)
 //@   ensures [first-match] result == gbRule(cr.r == 10 && cr.prev == 13, cr.prevGrapheme, cr.grapheme, old(cr.pictoSequence) == 2 && cr.isExtentedPic, cr.grapheme == ucd.GraphemeBreakRegional_Indicator && old(cr.isPrevGraphemeRIOdd))
+//   the GB11 and GB12/13 look-behind states advance at EVERY position, whichever rule decides the boundary (a control
+//   character resets them; the character after a control starts them)
+//@   ensures [gb11-state-advances-always] cr.pictoSequence == ite(cr.isExtentedPic, pictoSequenceState(1),
+//@     | ite(old(cr.pictoSequence) == 1 && cr.grapheme == ucd.GraphemeBreakExtend, pictoSequenceState(1),
+//@     | ite(old(cr.pictoSequence) == 1 && cr.grapheme == ucd.GraphemeBreakZWJ, pictoSequenceState(2), pictoSequenceState(0))))
+//@   ensures [ri-parity-advances-always] cr.isPrevGraphemeRIOdd == (cr.grapheme == ucd.GraphemeBreakRegional_Indicator && !old(cr.isPrevGraphemeRIOdd))
 //@   modifies cr.pictoSequence; cr.isPrevGraphemeRIOdd
 //
 // UAX #14, highest-priority rules, each stated as in the standard: a rule decides when its context matches and no
